@@ -151,11 +151,32 @@ def _cfg(rng):
             "fs_seed": rng.getrandbits(30), "locale": rng.choice(["utf-8", "utf-8", "cp1252", "ascii"])}
 
 
+def gen_stream_like(rng, prop="C15", oracles=None):
+    """One parser + one compiler fed k same-shape documents, every result dropped before the next."""
+    k = rng.randint(3, 8)
+    series = workload.template_series(rng, k)
+    shared = rng.random() < 0.6
+    parsers = [{"b": "ast", "g": 0}] if shared or rng.random() < 0.5 else [{"b": "astd"}]
+    compilers = [{"g": 0}] if shared else [{"g": 1 if rng.random() < 0.5 else None}]
+    ops = []
+    for i, (_lb, text) in enumerate(series):
+        ops.append({"op": "parse", "p": 0, "m": None, "text": text, "first": False, "src": rng.choice(["str", "scanner"])})
+        ops.append({"op": "compile", "c": 0, "of": len(ops) - 1, "uri": "t%d.feature" % i, "attach": "copy"})
+    cfg = _cfg(rng)
+    cfg["drop"] = True
+    return {"scenario": "reuse", "prop": prop, "labels": [lb for lb, _ in series], "oracles": oracles or ORACLES, "cfg": cfg, "gens": 2,
+            "fs": {}, "tasks": [{"parsers": parsers, "matchers": [], "compilers": compilers, "ops": ops}], "stream_like": True}
+
+
 def gen_reuse(rng):
+    if rng.random() < 0.12:
+        return gen_stream_like(rng)
     files = {}
     ngens = rng.randint(1, 2)
     task, labels = _gen_task(rng, 0, ngens, rng.randint(2, 12), files, "t0")
-    return {"scenario": "reuse", "prop": "C15", "labels": labels, "oracles": ORACLES, "cfg": _cfg(rng), "gens": ngens,
+    cfg = _cfg(rng)
+    cfg["drop"] = rng.random() < 0.3  # a caller that does not keep earlier results (memory, and object identities, are reused)
+    return {"scenario": "reuse", "prop": "C15", "labels": labels, "oracles": ORACLES, "cfg": cfg, "gens": ngens,
             "fs": {"files": files}, "tasks": [task]}
 
 
@@ -163,14 +184,17 @@ def gen_interleave(rng):
     files = {}
     ntasks = rng.choice([2, 2, 3, 3, 4])
     tasks, labels = [], []
+    shared = rng.random() < 0.2  # the callers CHOSE to share one id generator: results still equal "alone" up to the order of draws
     for ti in range(ntasks):
-        t, lb = _gen_task(rng, ti, 1, rng.randint(1, 6 if ntasks < 4 else 3), files, "t%d" % ti, small=True)
+        t, lb = _gen_task(rng, 0 if shared else ti, 1, rng.randint(1, 6 if ntasks < 4 else 3), files, "t%d" % ti, small=True)
         tasks.append(t)
         labels.append(lb)
     cfg = _cfg(rng)
     cfg["policy"] = POLICIES[rng.randrange(len(POLICIES))]
     cfg["sched_seed"] = rng.getrandbits(32)
-    spec = {"scenario": "interleave", "prop": "C15", "labels": labels, "oracles": ORACLES, "cfg": cfg, "gens": ntasks,
+    cfg["drop"] = rng.random() < 0.2
+    spec = {"scenario": "interleave", "prop": "C15", "labels": labels, "oracles": [o for o in ORACLES if not (shared and o == "offset")], "cfg": cfg, "gens": ntasks,
+            "shared_generator": shared,
             "fs": {"files": files}, "tasks": tasks, "force_kernel": True}
     if rng.random() < 0.15:
         victim = rng.randrange(ntasks)
